@@ -333,12 +333,15 @@ def c17_random(run, quick, binp, tdir, nrandom, scopes, total_acc, total_rej, al
 # ---------------------------------------------------------------------------------------
 # C32
 SP = specdir("Spans")
-SP_BUGS = ["DropAtBoundary", "TruncKeepsBeyondEnd", "MergeDropsLowerLevel", "DefragJoinsUnequal"]
+SP_BUGS = ["DropAtBoundary", "TruncKeepsBeyondEnd", "MergeDropsLowerLevel", "DefragJoinsUnequal", "DefragIgnoresValue"]
 
 
-def sp_consts(nb, nseq, maxspans, maxkeys, nlevels, ops, emit=True):
+def sp_consts(nb, nseq, maxspans, maxkeys, nlevels, ops, emit=True, dseqs=(1, 2), dkinds=(20, 21), dvals=(1, 2), dmethods=("internal", "user")):
+    """dseqs/dkinds/dvals: key pool of the already fragmented inputs (defrag, mdefrag); dmethods: DefragmentMethods generated"""
     return dict(NB=nb, NSeq=nseq, MaxSpans=maxspans, MaxKeys=maxkeys, NLevels=nlevels,
-                Ops="{" + ", ".join('"%s"' % o for o in ops) + "}", BugMode='"none"', Emit="TRUE" if emit else "FALSE")
+                Ops="{" + ", ".join('"%s"' % o for o in ops) + "}",
+                DSeqs=tla_set(dseqs), DKinds=tla_set(dkinds), DVals=tla_set(dvals), DMethods="{" + ", ".join('"%s"' % m for m in dmethods) + "}",
+                BugMode='"none"', Emit="TRUE" if emit else "FALSE")
 
 
 def sp_trace_cfg(nb, nseq):
@@ -349,41 +352,62 @@ def run_c32(run):
     quick = run.tier == "quick"
     vlib.sany(SP, "Spans")
     vlib.sany(SP, "SpansTrace")
-    run_bugs(run, SP, "Spans", SP_BUGS)
-    binp = vlib.build_driver("internal/verif/inputsdrv")
-    ALL = ["frag", "trunc", "merge", "defrag"]
+    FRAG = ["frag", "trunc", "merge"]
+    # fragmented inputs (defrag with both DefragmentMethods, merge+defrag): abutting / separated fragments whose keys are drawn from a
+    # full product of seqnum x kind x suffix x value, so that neighbours differ in any one field (or none)
+    D2 = ("defrag/mdefrag: 4 boundaries, <=2 fragments x 1 key over seq{1,2} x {DEL,UNSET,SET} x 2 suffixes x 2 values, both methods, 2 levels",
+          sp_consts(4, 2, 2, 1, 2, ["defrag", "mdefrag"], dkinds=(19, 20, 21)))
+    D3 = ("defrag: 5 boundaries, <=3 fragments x 1 SET key over seq{1,2} x 2 suffixes x 2 values, both methods",
+          sp_consts(5, 2, 3, 1, 1, ["defrag"], dkinds=(21,)))
     if quick:
-        scopes = [("4 boundaries, <=2 spans x 1 key (seq 1..2, 2 suffixes), 2 levels, all ops", sp_consts(4, 2, 2, 1, 2, ALL)),
+        scopes = [("4 boundaries, <=2 spans x 1 key (seq 1..2, 2 suffixes), 2 levels, frag/trunc/merge", sp_consts(4, 2, 2, 1, 2, FRAG)),
+                  D2, D3,
                   ("4 boundaries, <=3 spans x 1 key (seq 1..3), frag/merge 2 levels", sp_consts(4, 3, 3, 1, 2, ["frag", "merge"]))]
         nrandom = 6000
     else:
-        scopes = [("5 boundaries, <=3 spans x 1 key (seq 1..3, 2 suffixes), 2 levels, all ops", sp_consts(5, 3, 3, 1, 2, ALL)),
-                  ("4 boundaries, <=2 spans x <=2 keys (seq 1..4, 2 suffixes), 2 levels, all ops", sp_consts(4, 4, 2, 2, 2, ALL))]
+        scopes = [("5 boundaries, <=3 spans x 1 key (seq 1..3, 2 suffixes), 2 levels, frag/trunc/merge", sp_consts(5, 3, 3, 1, 2, FRAG)),
+                  ("4 boundaries, <=2 spans x <=2 keys (seq 1..4, 2 suffixes), 2 levels, frag/trunc/merge", sp_consts(4, 4, 2, 2, 2, FRAG)),
+                  D2, D3,
+                  ("defrag/mdefrag: 4 boundaries, <=2 fragments x <=2 keys over seq{1,2} x {UNSET,SET} x 2 suffixes x 2 values, both methods, 2 levels",
+                   sp_consts(4, 2, 2, 2, 2, ["defrag", "mdefrag"])),
+                  ("mdefrag: 4 boundaries, <=3 fragments x 1 SET key over seq{1,2,3} x 2 suffixes x 2 values, 2 levels",
+                   sp_consts(4, 3, 3, 1, 2, ["mdefrag"], dseqs=(1, 2, 3), dkinds=(21,)))]
         nrandom = 150000
     tdir = vlib.scratch("verif.c32.")
     total_acc = total_vac = total_rej = 0
     allpairs = []
-    for i, (name, consts) in enumerate(scopes):
-        r, cases = design_emit(run, SP, "Spans", "Spans/" + name, cfg_text("Spec", consts, invariants=["Inv", "EmitInv"]))
-        if not cases:
-            raise vlib.Inconclusive("TLC emitted no inputs for scope " + name)
-        cf = os.path.join(tdir, "cases%d.jsonl" % i)
-        with open(cf, "w") as f:
-            for c in cases:
-                f.write(json.dumps(c, separators=(",", ":")) + "\n")
-        tf = os.path.join(tdir, "trace%d.ndjson" % i)
-        rc, out = vlib.run_driver(binp, "TestC32$", env=dict(VERIF_OUT=tf, VERIF_CASES=cf, VERIF_SEED=str(run.seed), VERIF_NB=str(consts["NB"])), timeout=1500)
-        if "DRIVER-DONE" not in out:
-            raise vlib.Inconclusive("inputsdrv TestC32 died:\n" + out[-3000:])
-        pairs = read_pairs(tf)
-        if len(pairs) != len(cases):
-            raise vlib.Inconclusive("driver executed %d of %d emitted inputs" % (len(pairs), len(cases)))
-        acc, vac, rej = validate_pairs(run, SP, "SpansTrace", sp_trace_cfg(consts["NB"], consts["NSeq"]), pairs, "tlc:" + name,
-                                       shards=SHARDS if quick else 2 * SHARDS)
-        if vac:
-            raise vlib.Inconclusive("TLC-emitted inputs judged inadmissible by the trace spec (%d)" % vac)
-        total_acc += acc; total_rej += rej
-        allpairs += pairs
+    # the scopes' design runs are independent: they are enumerated ahead (two at a time) while the driver executes and TLC
+    # validates the cases of the scopes already enumerated
+    pool = concurrent.futures.ThreadPoolExecutor(max_workers=2)
+    futs = [pool.submit(design_emit, run, SP, "Spans", "Spans/" + name, cfg_text("Spec", consts, invariants=["Inv", "EmitInv"]),
+                        heap="4g" if quick else "8g", record=False) for name, consts in scopes]
+    try:
+        run_bugs(run, SP, "Spans", SP_BUGS)
+        binp = vlib.build_driver("internal/verif/inputsdrv")
+        for i, (name, consts) in enumerate(scopes):
+            r, cases = futs[i].result()
+            run.add_design("Spans/" + name, r)
+            if not cases:
+                raise vlib.Inconclusive("TLC emitted no inputs for scope " + name)
+            cf = os.path.join(tdir, "cases%d.jsonl" % i)
+            with open(cf, "w") as f:
+                for c in cases:
+                    f.write(json.dumps(c, separators=(",", ":")) + "\n")
+            tf = os.path.join(tdir, "trace%d.ndjson" % i)
+            rc, out = vlib.run_driver(binp, "TestC32$", env=dict(VERIF_OUT=tf, VERIF_CASES=cf, VERIF_SEED=str(run.seed), VERIF_NB=str(consts["NB"])), timeout=1500)
+            if "DRIVER-DONE" not in out:
+                raise vlib.Inconclusive("inputsdrv TestC32 died:\n" + out[-3000:])
+            pairs = read_pairs(tf)
+            if len(pairs) != len(cases):
+                raise vlib.Inconclusive("driver executed %d of %d emitted inputs" % (len(pairs), len(cases)))
+            acc, vac, rej = validate_pairs(run, SP, "SpansTrace", sp_trace_cfg(consts["NB"], consts["NSeq"]), pairs, "tlc:" + name,
+                                           shards=SHARDS if quick else 2 * SHARDS)
+            if vac:
+                raise vlib.Inconclusive("TLC-emitted inputs judged inadmissible by the trace spec (%d)" % vac)
+            total_acc += acc; total_rej += rej
+            allpairs += pairs
+    finally:
+        pool.shutdown(wait=True, cancel_futures=True)
     RNB, RNS = 7, 8
     tf = os.path.join(tdir, "random.ndjson")
     rc, out = vlib.run_driver(binp, "TestC32$", env=dict(VERIF_OUT=tf, VERIF_RANDOM=str(nrandom), VERIF_SEED=str(run.seed), VERIF_NB=str(RNB),
@@ -399,16 +423,18 @@ def run_c32(run):
         good = None
         for a, b in rpairs:
             c, o = json.loads(a)["c"], json.loads(b)["o"]
-            if c["op"] in ("frag", "merge") and len(o["fwd"]) >= 2:
+            # an accepted defragmentation / merge whose second output fragment starts with a RANGEKEYSET
+            if c["op"] in ("defrag", "mdefrag", "merge") and len(o["fwd"]) >= 2 and o["fwd"][1]["ks"][0]["t"] == 21:
                 good = (a, b)
                 break
         if not good:
             raise vlib.Inconclusive("binding demo: no suitable accepted case")
         o = json.loads(good[1])
-        o["o"]["fwd"][1]["ks"] = o["o"]["fwd"][1]["ks"][1:] or [{"s": 99, "x": 0}]
+        k = o["o"]["fwd"][1]["ks"][0]
+        k["v"] = 3 - k["v"] if k["v"] in (1, 2) else 1
         o["o"]["bwd"] = o["o"]["fwd"]
         demo(run, SP, "SpansTrace", tcfg, good, (good[0], json.dumps(o, separators=(",", ":"))),
-             "one key removed from the second logged output fragment")
+             "the value of one key of the second logged output fragment changed")
     allpairs += rpairs
     run.traces += total_acc
     run.cov["evaluations"] = total_acc - total_vac
@@ -417,26 +443,36 @@ def run_c32(run):
     run.cov["vacuous_inadmissible_random_inputs"] = total_vac
     run.cov["exhaustive"] = [n for n, _ in scopes]
     run.cov["rule"] = ("evaluations = cases (spans + operation fed to the real keyspan code, and the fragments it produced in forward and backward "
-                       "iteration plus SeekGE/SeekLT at every boundary) on which TLC evaluated Fragmented(in,out); distinct_nontrivial = distinct inputs "
-                       "with >= 2 spans, minus the inadmissible count. Operations: Fragmenter.Add/Truncate/Finish, keyspan.Truncate over the fragmented "
-                       "spans, keyspanimpl.MergingIter over per-level fragmented spans, DefragmentingIter(DefragmentInternal). Scopes in 'exhaustive' "
-                       "are fully enumerated by TLC; random inputs: seeded, 7 boundaries, <=5 spans with <=2 keys, 3 levels.")
+                       "iteration plus, at every boundary, SeekGE/SeekLT each followed by Next and by Prev) on which TLC evaluated Fragmented(in,out); "
+                       "distinct_nontrivial = distinct inputs with >= 2 spans, minus the inadmissible count. Operations: Fragmenter.Add/Truncate/Finish, "
+                       "keyspan.Truncate over the fragmented spans, keyspanimpl.MergingIter over per-level fragmented spans, DefragmentingIter with "
+                       "keyspan.DefragmentInternal and with the user-iteration method (rangekeystack.UserIteratorConfig.ShouldDefragment), and "
+                       "MergingIter -> DefragmentingIter(DefragmentInternal) as in the compaction input. Scopes in 'exhaustive' are fully enumerated by TLC; "
+                       "random inputs: seeded, 7 boundaries, <=5 spans with <=2 keys of all three range-key kinds, 3 levels; fragmented inputs whose "
+                       "neighbouring fragments differ in no or exactly one field (value, suffix, seqnum, kind) of one key.")
     for a, b in (allpairs[len(allpairs) // 3], rpairs[1], rpairs[len(rpairs) // 2]):
         run.sample({"in": json.loads(a)["c"], "out": json.loads(b)["o"]})
     run.assumptions += [
         "span bounds are integer boundaries, so coverage of unit intervals is coverage of every user key",
-        "keys are RANGEKEYSET keys with distinct seqnums, a suffix and a value that must travel with the key",
+        "a key is (seqnum, kind RANGEKEYSET/UNSET/DEL, suffix, value) and all of it must travel with the key; spans given to the fragmenter / "
+        "the merging iterator carry distinct seqnums; already fragmented inputs (defragmentation) may repeat seqnums across fragments, as the keys of "
+        "one ingested table do; levels of a merge+defragment case hold disjoint seqnums",
+        "under the user-iteration DefragmentMethod the input is what UserIteratorConfig.Transform leaves (RANGEKEYSETs, one per suffix, by "
+        "ascending suffix) and the observable key is (suffix, value): sequence numbers are deliberately not compared there",
         "defragmentation is checked for coverage preservation and well-formedness (not for maximality)",
         "TLC's verdict on each case is authoritative; the Go driver only executes and records",
     ]
 
 
 C32_TEXT = ("The declarative TLA+ module Spans defines per-key coverage of a set of spans and well-formedness of fragments. TLC enumerates every "
-            "small set of overlapping spans (bounds, key seqnums, suffixes, levels, truncation bounds, fragmenter cut points), checks the module's "
-            "reference fragmentation, and emits the inputs; each is fed to the real keyspan.Fragmenter, keyspan.Truncate, keyspanimpl.MergingIter and "
-            "keyspan.DefragmentingIter; TLC validates on every real output that fragments are sorted, non-overlapping, non-empty, identical in both "
-            "iteration directions, consistent under SeekGE/SeekLT, and that the keys covering every user key are exactly those of the input spans "
-            "covering it (restricted to the bounds for truncation, united over levels for merging).")
+            "small set of overlapping spans (bounds, key seqnums, suffixes, levels, truncation bounds, fragmenter cut points) and every small list of "
+            "already fragmented spans whose keys range over seqnum x kind x suffix x value (so neighbours differ in any single field), checks the module's "
+            "reference fragmentation / defragmentation (5 seeded bugs caught), and emits the inputs; each is fed to the real keyspan.Fragmenter, "
+            "keyspan.Truncate, keyspanimpl.MergingIter, keyspan.DefragmentingIter with both DefragmentMethods of the tree (DefragmentInternal and the "
+            "user-iteration method) and MergingIter->DefragmentingIter; TLC validates on every real output that fragments are sorted, non-overlapping, "
+            "non-empty, identical in both iteration directions, consistent under SeekGE/SeekLT followed by Next/Prev, and that the keys (with suffix and "
+            "value) covering every user key are exactly those of the input spans covering it (restricted to the bounds for truncation, united over "
+            "levels for merging).")
 
 # ---------------------------------------------------------------------------------------
 # C16
